@@ -18,7 +18,7 @@ MANIFEST = {
     'text': 'Histories mix succeeding and deterministically raising commands (a raising method on the object, ReplList.remove/pop and ReplSet.remove of missing elements) submitted on leaders and followers, '
             'with connection breaks and journal restarts. Oracle: each callback fires exactly once, every replica\'s applied index passes every command, later commands are applied, all replicas equal the reference model '
             '(which executes the same methods and swallows the same exception), and no exception escapes a tick.',
-    'note': 'Healthy closing phase (a callback is due); restarts are clean stop + start on the same journal; 2-3 voters.',
+    'note': 'In half of the cases every node compacts its log at the end (snapshot of a state that went through raising commands) and one more command must be applied everywhere. Healthy closing phase (a callback is due); restarts are clean stop + start on the same journal; 2-3 voters.',
 }
 LEVEL = 'exploration'
 RULE = ('case = (n 2-3, journal on/off, list of commands (kind, submitting node) interleaved with break/restart steps). '
